@@ -25,6 +25,20 @@ pub struct FamilyKeys {
     pub public: usize,
     pub pke_secret: usize,
     pub pke_public: usize,
+    /// v3 only, when the scenario asked for it: principals with alternatively encoded public keys
+    pub known: Option<KnownP384>,
+}
+
+#[derive(Clone, Copy, Debug)]
+pub struct KnownP384 {
+    pub secret: usize,
+    pub public: usize,
+    pub public_uncompressed: usize,
+    pub pke_secret: usize,
+    pub pke_public: usize,
+    pub pke_public_uncompressed: usize,
+    pub secret_scalar: [u8; 48],
+    pub pke_scalar: [u8; 48],
 }
 
 impl Builder {
@@ -120,7 +134,27 @@ impl Builder {
             self.push(Step::AsPke { slot: pke_secret, from: tmp });
             self.push(Step::AsPke { slot: pke_public, from: tmp_pub });
         }
-        Some(FamilyKeys { family, home, local, secret, public, pke_secret, pke_public })
+        Some(FamilyKeys { family, home, local, secret, public, pke_secret, pke_public, known: None })
+    }
+
+    /// P-384 principals whose bytes the generator knows, each public key imported twice: from its
+    /// compressed and from its uncompressed SEC1 encoding (both backends accept both).
+    pub fn p384_known(&mut self) -> Option<KnownP384> {
+        let mut pair = |b: &mut Builder, sk: Kind, pk: Kind| -> Option<(usize, usize, usize, [u8; 48])> {
+            let mut sc = Rng::new(b.ev_seed()).bytes(48);
+            sc[0] &= 0x7f;
+            let un = crate::refimpl::p384_uncompressed_of_scalar(&sc)?;
+            let mut comp = vec![2 | (un[96] & 1)];
+            comp.extend_from_slice(&un[1..49]);
+            let (s, c, u) = (b.key_slot(), b.key_slot(), b.key_slot());
+            b.push(Step::KeyFromRaw { slot: s, family: 3, kind: sk, bytes: Bytes::hex(&sc) });
+            b.push(Step::KeyFromRaw { slot: c, family: 3, kind: pk, bytes: Bytes::hex(&comp) });
+            b.push(Step::KeyFromRaw { slot: u, family: 3, kind: pk, bytes: Bytes::hex(&un) });
+            Some((s, c, u, sc.try_into().ok()?))
+        };
+        let (secret, public, public_uncompressed, secret_scalar) = pair(self, Kind::Secret, Kind::Public)?;
+        let (pke_secret, pke_public, pke_public_uncompressed, pke_scalar) = pair(self, Kind::PkeSecret, Kind::PkePublic)?;
+        Some(KnownP384 { secret, public, public_uncompressed, pke_secret, pke_public, pke_public_uncompressed, secret_scalar, pke_scalar })
     }
 
     pub fn payload_len(&mut self, thorough: bool) -> usize {
